@@ -8,7 +8,7 @@ THEOREMS = ['Tbox.C15.C15_terminates', 'Tbox.C15.C15_terminates_bound', 'Tbox.C1
             'Tbox.C15.C15_callback_once', 'Tbox.C15.C15_callback_at_most_once', 'Tbox.C15.C15_cancelled_never_called',
             'Tbox.C15.C15_no_callback_once_dead', 'Tbox.C15.C15_called_log',
             'Tbox.C15.C15_outstanding_at_most_5_ticks', 'Tbox.C15.C15_timer_armed_while_outstanding',
-            'Tbox.C15.C15_alloc_finds_free_id', 'Tbox.C15.C15_callback_after_erase',
+            'Tbox.C15.C15_alloc_finds_free_id', 'Tbox.C15.C15_socket_path', 'Tbox.C15.C15_callback_after_erase',
             'Tbox.C15.C15_orig_idwrap_counterexample', 'Tbox.C15.C15_orig_timeout_early_counterexample',
             'Tbox.C15.C15_orig_selfcancel_counterexample',
             'Tbox.C15.C15_orig_terminates_counterexample', 'Tbox.C15.C15_orig_uninit_counterexample_short',
@@ -537,7 +537,7 @@ def gen(rng, tier):
         yield gen_boundary(rng)
     for i in range(40 if tier == 'quick' else 400):
         yield gen_ring(rng)
-    for i in range(6 if tier == 'quick' else 40):
+    for i in range(12 if tier == 'quick' else 60):
         yield gen_netbig(rng)
     # every boundary family at least once per run, to the same lookup shape
     for fam in BOUNDARY_FAMILIES:
